@@ -1,4 +1,5 @@
 import RJson.Model.Abs
+import RJson.Model.AbsSmall
 import RJson.Model.Driver
 import Std.Data.HashMap
 /-!
@@ -28,9 +29,18 @@ def posStr : Pos → String
 
 def asStr (a : AS) : String := s!"⟨{ctxStr a.ctx}, {posStr a.pos}⟩"
 
+def lsStr : AbsSmall.LS → String
+  | .ws => ".ws" | .lit l i => s!"(.lit {litStr l} {i})" | .done => ".done"
+
+def ssStr : AbsSmall.SS → String
+  | .start => ".start" | .plain => ".plain" | .esc => ".esc" | .u k => s!"(.u {k})" | .done => ".done"
+
+section
+variable {α : Type} [BEq α] [Repr α]
+
 /-- pair up two transitions; `none` = they do not match structurally -/
-def pairTrans (m : List (Act Nat) × Option Nat) (a : List (Act AS) × Option AS) : Option (List (Nat × AS)) :=
-  let rec acts : List (Act Nat) → List (Act AS) → Option (List (Nat × AS))
+def pairTrans (m : List (Act Nat) × Option Nat) (a : List (Act α) × Option α) : Option (List (Nat × α)) :=
+  let rec acts : List (Act Nat) → List (Act α) → Option (List (Nat × α))
     | [], [] => some []
     | .s x :: xs, .s y :: ys => if x == y then acts xs ys else none
     | .call l r e :: xs, .call l' r' e' :: ys => if l == l' then (acts xs ys).map (fun ps => (r, r') :: (e, e') :: ps) else none
@@ -41,38 +51,39 @@ def pairTrans (m : List (Act Nat) × Option Nat) (a : List (Act AS) × Option AS
   | some ps, some t, some t' => some ((t, t') :: ps)
   | _, _, _ => none
 
-structure St where
-  labels : Std.HashMap Nat (List AS) := {}
-  queue : Array (Nat × AS) := #[]
+structure St (α : Type) where
+  labels : Std.HashMap Nat (List α) := {}
+  queue : Array (Nat × α) := #[]
   err : Option String := none
 
-def addPair (st : St) (p : Nat × AS) : St :=
+def addPair (st : St α) (p : Nat × α) : St α :=
   let cur := st.labels.getD p.1 []
   if cur.contains p.2 then st
   else { st with labels := st.labels.insert p.1 (cur ++ [p.2]), queue := st.queue.push p }
 
-partial def bfs (M : PDM Nat) (A : PDM AS) (qi : Nat) (st : St) : St :=
+partial def bfs [Inhabited α] (show_ : α → String) (M : PDM Nat) (A : PDM α) (qi : Nat) (st : St α) : St α :=
   if st.err.isSome || qi ≥ st.queue.size then st
   else
     let (s, a) := st.queue[qi]!
     let st := if M.eof s == A.eof a then st else
-      { st with err := some s!"eof actions differ at generated state {s} / abstract {asStr a}: {repr (M.eof s)} vs {repr (A.eof a)}" }
+      { st with err := some s!"eof actions differ at generated state {s} / abstract {show_ a}: {repr (M.eof s)} vs {repr (A.eof a)}" }
     let st := (List.range 256).foldl (fun st b =>
       if st.err.isSome then st else
       let mt := M.step s (UInt8.ofNat b)
       let at_ := A.step a (UInt8.ofNat b)
       match pairTrans mt at_ with
       | some ps => ps.foldl addPair st
-      | none => { st with err := some s!"transition differs at generated state {s} / abstract {asStr a} on byte {b}: generated {repr mt} abstract {repr at_}" }) st
-    bfs M A (qi + 1) st
+      | none => { st with err := some s!"transition differs at generated state {s} / abstract {show_ a} on byte {b}: generated {repr mt} abstract {repr at_}" }) st
+    bfs show_ M A (qi + 1) st
 
-def label (M : PDM Nat) (A : PDM AS) : St :=
-  bfs M A 0 (addPair {} (M.start, A.start))
+def label [Inhabited α] (show_ : α → String) (M : PDM Nat) (A : PDM α) : St α :=
+  bfs show_ M A 0 (addPair {} (M.start, A.start))
 
 /-- Lean source of the labelling function -/
-def render (name : String) (st : St) : String :=
+def render (show_ : α → String) (name : String) (st : St α) : String :=
   let entries := st.labels.toList.toArray.qsort (fun x y => x.1 < y.1)
-  let lines := entries.toList.map (fun (s, as) => s!"  | {s} => [{", ".intercalate (as.map asStr)}]")
-  s!"def {name} : Nat → List RJson.Abs.AS\n" ++ "\n".intercalate lines ++ "\n  | _ => []\n"
+  let lines := entries.toList.map (fun (s, as) => s!"  | {s} => [{", ".intercalate (as.map show_)}]")
+  s!"def {name} : Nat → List _\n" ++ "\n".intercalate lines ++ "\n  | _ => []\n"
+end
 
 end RJson.Label
